@@ -215,7 +215,9 @@ func (s *Store) delete(ctx context.Context, target ocispec.Descriptor) ([]ocispe
 	resolvers := s.tagResolver.Map()
 	untagged := false
 	for reference, desc := range resolvers {
-		if content.Equal(desc, target) {
+		// blobs are stored by digest: every reference to the digest goes
+		// with the blob, whatever media type it was tagged with
+		if desc.Digest == target.Digest {
 			s.tagResolver.Untag(reference)
 			untagged = true
 		}
